@@ -279,6 +279,11 @@ def run(chk: Check, tier: str):
     finally:
         c05_pool_close()
         cleanup(work)
+    # the level above run_test: several contracts and selections in one _main process (MainRun.tla) - exit code, selection,
+    # order and verdicts (the warnings clause of the same replay belongs to C10)
+    from harness import mainrun_replay
+
+    mainrun_replay.phase(chk, tier, {"exit", "selection", "order", "verdicts"}, "main-run")
 
 
 def _run(chk: Check, tier: str, P: dict, rnd, work, pool, t_start):
